@@ -12,7 +12,7 @@ def check(run):
     run.build()
     shards = 8      # real time: limited parallelism so that load cannot fake a slow return
     traces = run.drive('TestDriveC19', shards, lambda i: dict(VERIF_SEED=run.seed, VERIF_SHARD=i, VERIF_SHARDS=shards, VERIF_N=run.pick(1, 5)),
-                       'c19', parallel=8, timeout=3000)
+                       'c19', parallel=8, timeout=3000, crash_formula='C19_NoPanicObs')
     run.sample_from(traces[0], 3)
     run.validate('Rec_Exec', recfam.rec_cfg('Rec_Exec', INV), traces, 'rec', parallel=8)
     import os
